@@ -348,6 +348,17 @@ func writeLock(verif string, obls []*Obligation, old LockFile, known []KnownFind
 			nu++
 		}
 	}
+	// a relock must never hide a regression: say which undecided obligations are new
+	if ob, err := os.ReadFile(filepath.Join(verif, "obligations.lock.json")); err == nil {
+		var old LockFile
+		if json.Unmarshal(ob, &old) == nil {
+			for _, k := range sortedKeys2(lock.Undecided) {
+				if _, had := old.Undecided[k]; !had {
+					fmt.Printf("NEW undecided (not claimed): %s [%s] - check that this is not a regression\n", k, lock.Undecided[k])
+				}
+			}
+		}
+	}
 	b, _ := json.MarshalIndent(lock, "", " ")
 	if err := os.WriteFile(filepath.Join(verif, "obligations.lock.json"), append(b, '\n'), 0o644); err != nil {
 		fmt.Fprintln(os.Stderr, err)
@@ -355,4 +366,13 @@ func writeLock(verif string, obls []*Obligation, old LockFile, known []KnownFind
 	}
 	fmt.Printf("lock written: %d obligations, %d undecided (not claimed)\n", len(obls), nu)
 	return 0
+}
+
+func sortedKeys2(m map[string]string) []string {
+	ks := make([]string, 0, len(m))
+	for k := range m {
+		ks = append(ks, k)
+	}
+	sort.Strings(ks)
+	return ks
 }
